@@ -23,6 +23,11 @@ def run_one(st, spec, cs):
     if not compiled.ok and mcommon.refusal(compiled):
         compiled.etype = "ValueError"
     out = C.evaluate(cs, compiled=compiled)
+    if compiled.ok:
+        from ..monitors import order
+        ip, n = order.intersection_operands(compiled.text)
+        st.bump("monitor", "intersection-calls-in-text", n)
+        out.problems.extend(ip)
     if out.status == "ok":
         st.bump("monitor", "metrics-runs")
         ref = GA.plain_of(spec)
